@@ -73,6 +73,7 @@ type Obs struct {
 	ForeignWrites    []string `json:"foreignWrites"` // modifying system calls on other paths inside the tree
 	Events           []string `json:"events"`
 	VersionPrinted   bool     `json:"versionPrinted"` // stdout is exactly the version line
+	CauseSeen        bool     `json:"causeSeen"`      // the diagnostic mentions what the scenario's module state was built to provoke (guards against vacuity)
 }
 
 type Rec struct {
@@ -245,7 +246,7 @@ func (r *runner) layout(dir string, sc Scenario) error {
 		// the requirement for example.com/lib is missing: the go command may only
 		// complain, never repair (moq must not let it write)
 		gomod += "\nreplace example.com/lib => ./lib\n"
-		src = strings.Replace(ifaceSrc, "package p\n", "package p\n\nimport \"example.com/lib\"\n\ntype UsesLib interface{ Do(k lib.Key) }\n", 1)
+		src = strings.Replace(ifaceSrc, "import (\n", "import (\n\t\"example.com/lib\"\n", 1) + "\ntype UsesLib interface{ Do(k lib.Key) }\n"
 		core.WriteFile(filepath.Join(dir, "lib", "go.mod"), []byte("module example.com/lib\n\ngo 1.24\n"))
 		core.WriteFile(filepath.Join(dir, "lib", "lib.go"), []byte("package lib\n\ntype Key string\n"))
 	}
@@ -581,6 +582,10 @@ func (r *runner) runOnce(id int, pred Pred, spelling string) (*Rec, error) {
 	}
 	if sc.Flag == "bad" {
 		o.StderrNamesArg = strings.Contains(st, "nosuchflag")
+	}
+	o.CauseSeen = true
+	if marker := map[string]string{"stale": "example.com/lib", "nobody": "missing function body", "badimport": "nosuchpackage", "typeerr": "cannot use"}[sc.Mod]; marker != "" {
+		o.CauseSeen = strings.Contains(st, marker)
 	}
 	o.VersionPrinted = strings.HasPrefix(so.String(), "moq version ") && strings.Count(so.String(), "\n") == 1
 	ref, err := r.reference(Scenario{Out: sc.Out, Args: firstOK(sc.Args), Stub: sc.Stub})
